@@ -271,6 +271,12 @@ class Parser:
         self.eatop('{'); stmts = []; tail = None
         while not self.atop('}'):
             if self.atop(';'): self.next(); continue
+            if self.atid('use'):
+                # `use path::{a, b};` inside a body: names only, no effect on the translation
+                while not self.atop(';'):
+                    if self.at('eof'): raise Unsupported("unterminated use")
+                    self.next()
+                self.next(); continue
             if self.atid('let'):
                 self.next(); mut = False
                 if self.atid('mut') : mut = True; self.next()
@@ -379,6 +385,18 @@ class Parser:
             self.next()
             if len(es) == 1 and not trailing: return es[0]
             return ('tuple', es)
+        if k == 'op' and v == '<':
+            # a qualified path `<T>::name(args)` / `<T as Trait>::name(args)`
+            self.next(); self.skip_angle()
+            self.eat('op', '::')
+            segs = ['<qualified>'] + self.path_segments()
+            if not self.atop('('): raise Unsupported("qualified path that is not called")
+            self.next(); args = []
+            while not self.atop(')'):
+                args.append(self.expr())
+                if self.atop(','): self.next()
+            self.next()
+            return ('call', ('path', segs), args)
         if k == 'op' and v == '{': return self.block()
         if k == 'op' and v in ('|', '||'):
             self.next(); params = []
